@@ -238,6 +238,22 @@ theorem lastMatch_nonneg (B : List GPat) (rel : List Str) (d : Bool) (hn : ∀ g
       | none => simp [hm, hn g0 (by simp)]
     · rw [ih (fun g hg => hn g (by simp [hg])) h]
 
+theorem lastMatch_val_of_nonneg (rel : List Str) (d : Bool) :
+    ∀ (B : List GPat), (∀ g ∈ B, g.neg = false) → ∀ v, lastMatch B rel d = some v → v = false := by
+  intro B
+  induction B with
+  | nil => intro _ v h; simp [lastMatch] at h
+  | cons g B ih =>
+    intro hn v h
+    simp only [lastMatch] at h
+    cases hl : lastMatch B rel d with
+    | some w => rw [hl] at h; simp only [Option.some.injEq] at h; subst h; exact ih (fun g hg => hn g (by simp [hg])) w hl
+    | none =>
+      rw [hl] at h
+      by_cases hg : g.matches rel d = true
+      · simp only [hg, if_true, Option.some.injEq] at h; rw [← h]; exact hn g (by simp)
+      · simp [hg] at h
+
 theorem verdict_last (last : Str) (name : Str) (d : Bool) (h : lastMatch (parseContent last) [name] d = some false) :
     ∀ (init : List Str) (pre : List Str), init.length = pre.length →
       verdict (init ++ [last]) (pre ++ [name]) d = some false
@@ -526,5 +542,70 @@ theorem xvcStar_matches (c : Str) (hc : '/' ∉ c) : globMatch ".xvc/*".toList (
     | cons x d ih => intro p; simp [matchToks, ih]
   rw [this]
   exact starLoop_noslash _ (by simp [matchToks]) c hc
+
+/-! ## the lines that were there stay the first lines -/
+
+theorem rustLinesAux_complete : ∀ (a acc : Str), a ≠ [] → a.getLast? ≠ some '\n' → a.getLast? ≠ some '\r' →
+    rustLinesAux acc (a ++ ['\n']) = rustLinesAux acc a
+  | [], _, h, _, _ => absurd rfl h
+  | [c], acc, _, h1, h2 => by
+    have c1 : c ≠ '\n' := fun e => h1 (by simp [e])
+    have c2 : c ≠ '\r' := fun e => h2 (by simp [e])
+    simp only [List.cons_append, List.nil_append, rustLinesAux, c1, if_false, if_true, List.isEmpty_cons, Bool.false_eq_true]
+    unfold lineOfAcc
+    split
+    · rename_i a heq; simp only [List.cons.injEq] at heq; exact absurd heq.1 c2
+    · rfl
+  | c :: c2 :: r, acc, _, h1, h2 => by
+    have ih := fun acc' => rustLinesAux_complete (c2 :: r) acc' (by simp) (by simpa [List.getLast?_cons_cons] using h1)
+      (by simpa [List.getLast?_cons_cons] using h2)
+    simp only [List.cons_append] at ih ⊢
+    conv => lhs; unfold rustLinesAux
+    conv => rhs; unfold rustLinesAux
+    by_cases hc : c = '\n'
+    · simp only [hc, if_true]; rw [ih []]
+    · simp only [hc, if_false]
+      exact ih (c :: acc)
+
+theorem appendText_fresh (old : Str) (lines : List Str) (date : Str)
+    (h1 : old ≠ []) (h2 : old.getLast? ≠ some '\n') : ∃ r, appendText old lines date = '\n' :: r := by
+  simp only [appendText, h1, h2, ne_eq, not_false_eq_true, and_self, if_true, List.append_assoc, List.cons_append,
+    List.nil_append]
+  exact ⟨_, rfl⟩
+
+theorem lines_prefix_appendText (old : Str) (lines : List Str) (date : Str) (hr : old.getLast? ≠ some '\r') :
+    rustLines old <+: rustLines (old ++ appendText old lines date) := by
+  by_cases h1 : old = []
+  · subst h1; simp [rustLines, rustLinesAux]
+  · by_cases h2 : old.getLast? = some '\n'
+    · obtain ⟨a, rfl⟩ := List.getLast?_eq_some_iff.1 h2
+      have e : rustLines (a ++ ['\n'] ++ appendText (a ++ ['\n']) lines date) =
+          rustLines (a ++ ['\n']) ++ rustLines (appendText (a ++ ['\n']) lines date) := by
+        rw [List.append_assoc, List.singleton_append]; exact rustLines_append_nl _ _
+      rw [e]
+      exact List.prefix_append _ _
+    · obtain ⟨r, hr'⟩ := appendText_fresh old lines date h1 h2
+      rw [hr', rustLines_append_nl]
+      have : rustLines (old ++ ['\n']) = rustLines old := by
+        unfold rustLines; exact rustLinesAux_complete old [] h1 h2 hr
+      rw [this]
+      exact List.prefix_append _ _
+
+/-- one batch of groups: every `.gitignore` keeps its lines as the first lines -/
+theorem lines_prefix_writeGroups (date : Str) (keep : List Target) (line : Target → Str) (t : Tree)
+    (d : List Str) (old : Str) (hc : contentAt d t = some old) (hr : old.getLast? ≠ some '\r') :
+    ∃ new, contentAt d (writeGroups date keep line t) = some new ∧ rustLines old <+: rustLines new ∧
+      new.getLast? ≠ some '\r' := by
+  unfold writeGroups
+  rw [contentAt_foldl (fun d old => old ++ appendText old ((keep.filter (·.dir = d)).map line) date) d _ t (nodup_dedup _)]
+  by_cases hm : d ∈ dedup (keep.map (·.dir))
+  · simp only [hm, if_true, hc, Option.map_some]
+    refine ⟨_, rfl, lines_prefix_appendText old _ date hr, ?_⟩
+    -- the appended text ends with a newline
+    obtain ⟨x, hx⟩ : ∃ x, appendText old ((keep.filter (·.dir = d)).map line) date = x ++ ['\n'] := ⟨_, rfl⟩
+    rw [hx, ← List.append_assoc, List.getLast?_append]
+    simp
+  · simp only [hm, if_false]
+    exact ⟨old, hc, List.prefix_refl _, hr⟩
 
 end Ign.Git
